@@ -1821,13 +1821,16 @@ verify_changed(VB* self, PyObject* ignored)
     if (ro == NULL)
         return NULL;
 
-    self->_verify_generations = _generations_tuple(ro);
-    if (self->_verify_generations == NULL) {
+    t = _generations_tuple(ro);
+    if (t == NULL) {
         Py_DECREF(ro);
         return NULL;
     }
 
-    self->_verify_ro = ro;
+    /* Reading the generations can run arbitrary code, including a nested
+       ``changed()``: release whatever that left behind. */
+    Py_XSETREF(self->_verify_generations, t);
+    Py_XSETREF(self->_verify_ro, ro);
 
     Py_INCREF(Py_None);
     return Py_None;
